@@ -136,13 +136,15 @@ def main():
         sio = io.StringIO()
         w = csv.writer(sio, lineterminator="\n")
         w.writerow(names)
-        fault = rnd.choice([None] * 6 + ["bad-cell", "short-row", "missing-header", "empty"])
+        fault = rnd.choice([None] * 6 + ["bad-cell", "short-row", "missing-header", "empty", "empty-row"])
         blank_after = set(i for i in range(nrows) if rnd.random() < 0.12)
         texts = [[cell_text(rnd, cols[j][i], integer[j]) for j in range(ncols)] for i in range(nrows)]
         bad_line = None
         if fault == "bad-cell" and nrows:
             bi, bj = rnd.randrange(nrows), rnd.randrange(ncols)
             texts[bi][bj] = rnd.choice(["", "n/a", "1,5", "--", "1e", "0x10", "1_0", "NULL"])
+        if fault == "empty-row" and nrows:
+            texts[rnd.randrange(nrows)] = [""] * ncols       # a record whose cells are all empty (`,,,`) is a record, not a blank line
         if fault == "short-row" and nrows and ncols > 1:
             si = rnd.randrange(nrows)
             texts[si] = texts[si][:rnd.randint(1, ncols - 1)]
